@@ -15,6 +15,13 @@ var baseClasses = []file{
 	{"c.sql", "-- just a comment\n", "comment"},
 }
 
+// missingFile is named on the command line but does not exist.  No library call
+// can accept an input that is not there, so its verdict is "reject"; it is never
+// created by the harness and not part of the "untouched" comparisons.
+var missingFile = file{"nofile.sql", "", "missing"}
+
+func (f file) missing() bool { return f.Class == "missing" }
+
 // Inputs that make the validate options matter.
 var validateClasses = []file{
 	{"m.sql", "SELECT a FROM t LIMIT 1, 2\n", "mysql-only"},     // accepted only with --dialect mysql
